@@ -104,6 +104,9 @@ func newL1World(run *mon.Run, rng *mon.Rand, mons MonSet, cfg WorldCfg) *L1World
 	w.env = newL1EnvAt(0, nil, cfg.StartTime)
 	// half of the histories run every transaction first on a throw-away branch, like CheckTx does
 	w.env.L1.Speculate = rng.Bool()
+	if rng.Bool() {
+		w.env.EnableShadow(rng.U64()) // other transactions on discarded branches before every committed one
+	}
 	for i := 0; i < 3; i++ {
 		s := sim.NewAccount(fmt.Sprintf("stranger%d", i))
 		w.strangers = append(w.strangers, s)
